@@ -2,8 +2,10 @@
 import math
 
 import torch
+from linear_operator.operators import MaskedLinearOperator
 from torch import Tensor
 
+from .. import settings
 from ..distributions import MultivariateNormal
 from .exact_marginal_log_likelihood import ExactMarginalLogLikelihood
 
@@ -55,6 +57,18 @@ class LeaveOneOutPseudoLikelihood(ExactMarginalLogLikelihood):
         :param dict kwargs: Additional arguments to pass to the likelihood's forward function.
         """
         output = self.likelihood(function_dist, *params)
+
+        # Remove NaN values if enabled (as ExactMarginalLogLikelihood.forward does)
+        if settings.observation_nan_policy.value() == "mask":
+            observed = settings.observation_nan_policy._get_observed(target, output.event_shape)
+            output = MultivariateNormal(
+                mean=output.mean[..., observed],
+                covariance_matrix=MaskedLinearOperator(output.lazy_covariance_matrix, observed, observed),
+            )
+            target = target[..., observed]
+        elif settings.observation_nan_policy.value() == "fill":
+            raise ValueError("NaN observation policy 'fill' is not supported by LeaveOneOutPseudoLikelihood!")
+
         m, L = output.mean, output.lazy_covariance_matrix.cholesky(upper=False)
         identity = torch.eye(*L.shape[-2:], dtype=m.dtype, device=m.device)
         sigma2 = 1.0 / L._cholesky_solve(identity, upper=False).diagonal(dim1=-1, dim2=-2)  # 1 / diag(inv(K))
